@@ -17,7 +17,7 @@ from ..datasets import Dataset, Workdir, dataset_specs, materialise, place_press
 ID = "C06"
 SHARDS = {"quick": 16, "thorough": 16}
 RULE = ("data sets as C05; requested pressure grid either inside the range reported by the qha package (10 % margins) or "
-        "overshooting its upper end by >= max(5 % of the range, 2 GPa); every modulus (adiabatic, isothermal), six averages, both "
+        "overshooting its upper end by >= max(5 % of the range, 2 GPa) or by only 0.002-0.02 GPa; every modulus (adiabatic, isothermal), six averages, both "
         "velocities and the volume are compared at every (T,P); non-trivial = inside-grid spanning >= 3 volume-grid cells and >= 2 "
         "temperatures, or an overshooting grid; distinct by the drawn spec")
 ASSUMPTIONS = [
@@ -36,6 +36,9 @@ def cases(draw):
     s["order"] = min(s["order"], 3)
     s["overshoot"] = draw(st.sampled_from([False, False, False, True]))
     s["over_by"] = draw(st.floats(0.05, 0.6))
+    # 'near': the grid ends 0.002-0.02 GPa above the reachable pressure (the range is predicted with the qha package itself
+    # and agrees bit for bit with the table cij's own qha calculator holds, so a miss of 2e-3 GPa is a real overshoot)
+    s["over_kind"] = draw(st.sampled_from(["far", "near"]))
     s["edge"] = draw(st.sampled_from([None, None, "low", "high"]))      # lowest / highest request inside the first / last table cell
     return s
 
@@ -53,6 +56,17 @@ def local_quadratic(x, y, p):
     return out
 
 
+def local_cubic(x, y, p):
+    """4-point Lagrange through the nodes around the cell (one-sided in the first / last cell of the table)."""
+    n = len(x)
+    j = np.clip(np.searchsorted(x, p) - 2, 0, n - 4)
+    out = np.empty_like(p, dtype=float)
+    for m, (pp, jj) in enumerate(zip(p, j)):
+        xs, ys = x[jj: jj + 4], y[jj: jj + 4]
+        out[m] = sum(ys[a] * np.prod([(pp - xs[b]) / (xs[a] - xs[b]) for b in range(4) if b != a]) for a in range(4))
+    return out
+
+
 def reinterpolate(P, Q, p):
     """best, coarse (nt, npress) for a field Q(T,V) at pressures p along each isotherm."""
     nt = P.shape[0]
@@ -64,6 +78,11 @@ def reinterpolate(P, Q, p):
     # the interpolation-error scale is taken per isotherm (largest cubic-vs-quadratic difference over all requested
     # pressures): the pointwise difference depends on where in a grid cell the pressure happens to fall
     dev = np.max(np.abs(best - coarse), axis=1, keepdims=True)
+    # ... and it includes the spread between the cubic spline and a local 4-point cubic, which is larger than the
+    # cubic-vs-quadratic difference in the first / last cell of a coarse table, where every local stencil is one-sided
+    if P.shape[1] >= 4:
+        cub = np.array([local_cubic(P[i], Q[i], p) for i in range(nt)])
+        dev = np.maximum(dev, np.max(np.abs(best - cub), axis=1, keepdims=True))
     coarse = best + np.broadcast_to(dev, best.shape)
     return best, coarse
 
@@ -143,6 +162,11 @@ def oracle(ctx, s, ds, qs, case):
     best, coarse = reinterpolate(P, Vf, p)
     slack = 3 * np.abs(best - coarse) + 1e-7 * np.max(V)
     if vol_tp.shape != best.shape or np.any(np.abs(vol_tp - best) > slack):
+        if vol_tp.shape == best.shape:
+            ex = np.abs(vol_tp - best) - slack
+            it, ip = np.unravel_index(int(np.argmax(ex)), ex.shape)
+            raise PropertyViolation("C06/volume", "V(T,P) differs from the volume at which P(T,V)=P: at (iT=%d, ip=%d of %d) code %r, reference %r (coarse %r, slack %.3g)" % (
+                it, ip, ex.shape[1], float(vol_tp[it, ip]), float(best[it, ip]), float(coarse[it, ip]), float(slack[it, ip])), case)
         raise PropertyViolation("C06/volume", "V(T,P) differs from the volume at which P(T,V)=P", case)
     if not np.all(np.diff(vol_tp, axis=1) < 0):
         raise PropertyViolation("C06/volume-monotonic", "V(T,P) does not decrease with P", case)
@@ -184,8 +208,12 @@ def build(s):
     if s["overshoot"]:
         R = hi - lo
         top = hi + max(0.05 * R, 2.0) + s["over_by"] * R
+        if s.get("over_kind") == "near":
+            top = hi + 0.002 + 0.03 * s["over_by"]
         qs = dict(qs)
         qs["DELTA_P"] = float("%.8f" % ((top - qs["P_MIN"]) / (qs["NTV"] - 1)))
+        if not qs["P_MIN"] + qs["DELTA_P"] * (qs["NTV"] - 1) > hi + 1e-3:
+            return ds, None
         qs["DELTA_P_SAMPLE"] = qs["DELTA_P"]
         s["_hi"] = hi
     return ds, qs
@@ -203,7 +231,7 @@ def sub_conversion(ctx):
             ctx.stats.skip("non-monotonic-pressure")
             return
         if info["overshoot"]:
-            ctx.case(s, True, classes=["overshoot-rejected"])
+            ctx.case(s, True, classes=["overshoot-rejected", "overshoot-" + s.get("over_kind", "far")])
         else:
             ctx.case(s, info["cells"] >= 3 and s["nt"] + 4 >= 2, classes=["inside", "cells>=3" if info["cells"] >= 3 else "cells<3",
                                                                          "edge-%s" % s.get("edge")])
